@@ -2,6 +2,7 @@ import PharmpyModel.Core.Sexp
 import PharmpyModel.C15.Thread
 import PharmpyModel.C15.Proc
 import PharmpyModel.C15.Pool
+import PharmpyModel.C15.Path
 open Pharmpy Pharmpy.C15
 
 def bad : Sexp := .list [.atom "err", .atom "bad-op"]
@@ -115,6 +116,10 @@ def handle (st : St) (req : Sexp) : St × Sexp :=
     match k.asNat?, pev? e with
     | some k, some e => (st, Sexp.ofBool (pstep (st.getK k) e).isSome)
     | _, _ => (st, bad)
+  | .list [.atom "keys", .atom p] =>
+    let k := pathLockKeys p
+    (st, .list [.atom "ok", .atom k.threadKey, .atom k.fdKey])
+  | .list [.atom "normpath", .atom p] => (st, .list [.atom "ok", .atom (normpath p)])
   | .list [.atom "state", k] =>
     match k.asNat? with
     | some k => (st, stateS (st.get k))
